@@ -1,6 +1,7 @@
 import Harper.Props.C02
 import Harper.Lemmas.CondensePats
 import Harper.Lemmas.Shape
+import Harper.Lemmas.LexExt
 /-!
 # C02 (continued) — `Document::parse`: every condensing pass preserves tiling
 
@@ -19,23 +20,56 @@ open Harper
 theorem condenseSpaces_tiles (toks : List Tok) (a b : Nat) (h : Tiles toks a b) :
     Tiles (condenseSpaces toks) a b := condenseSpaces_tiles' toks a b h
 
+/-- non-vacuity of `condenseSpaces_tiles`: `a␣⇥b` at offset 2, the theorem applied; what the pass returns -/
+example : Tiles (condenseSpaces [⟨⟨2,3⟩,.word⟩, ⟨⟨3,4⟩,.space 1⟩, ⟨⟨4,5⟩,.space 2⟩, ⟨⟨5,6⟩,.word⟩]) 2 6 :=
+  condenseSpaces_tiles _ 2 6 (by decide)
+example : condenseSpaces [⟨⟨2,3⟩,.word⟩, ⟨⟨3,4⟩,.space 1⟩, ⟨⟨4,5⟩,.space 2⟩, ⟨⟨5,6⟩,.word⟩] =
+    [⟨⟨2,3⟩,.word⟩, ⟨⟨3,5⟩,.space 3⟩, ⟨⟨5,6⟩,.word⟩] := by decide
+
 /-- `condense_newlines` -/
 theorem condenseNewlines_tiles (toks : List Tok) (a b : Nat) (h : Tiles toks a b) :
     Tiles (condenseNewlines toks) a b := condenseNewlines_tiles' toks a b h
+
+/-- non-vacuity of `condenseNewlines_tiles` -/
+example : Tiles (condenseNewlines [⟨⟨2,3⟩,.word⟩, ⟨⟨3,4⟩,.newline 1⟩, ⟨⟨4,6⟩,.newline 2⟩, ⟨⟨6,7⟩,.word⟩]) 2 7 :=
+  condenseNewlines_tiles _ 2 7 (by decide)
+example : condenseNewlines [⟨⟨2,3⟩,.word⟩, ⟨⟨3,4⟩,.newline 1⟩, ⟨⟨4,6⟩,.newline 2⟩, ⟨⟨6,7⟩,.word⟩] =
+    [⟨⟨2,3⟩,.word⟩, ⟨⟨3,6⟩,.newline 3⟩, ⟨⟨6,7⟩,.word⟩] := by decide
 
 /-- `newlines_to_breaks` -/
 theorem newlinesToBreaks_tiles (toks : List Tok) (a b : Nat) (h : Tiles toks a b) :
     Tiles (newlinesToBreaks toks) a b := newlinesToBreaks_tiles' toks a b h
 
+/-- non-vacuity of `newlinesToBreaks_tiles` -/
+example : Tiles (newlinesToBreaks [⟨⟨2,3⟩,.word⟩, ⟨⟨3,6⟩,.newline 3⟩, ⟨⟨6,7⟩,.newline 1⟩]) 2 7 :=
+  newlinesToBreaks_tiles _ 2 7 (by decide)
+example : newlinesToBreaks [⟨⟨2,3⟩,.word⟩, ⟨⟨3,6⟩,.newline 3⟩, ⟨⟨6,7⟩,.newline 1⟩] =
+    [⟨⟨2,3⟩,.word⟩, ⟨⟨3,6⟩,.paragraphBreak⟩, ⟨⟨6,7⟩,.newline 1⟩] := by decide
+
 /-- `condense_dotted_initialisms` (with the fix that closes an initialism at the end of the text) -/
 theorem dottedInitialisms_tiles (toks : List Tok) (a b : Nat) (h : Tiles toks a b) :
     Tiles (dottedInitialisms toks) a b := dottedInitialisms_tiles' toks a b h
+
+/-- non-vacuity of `dottedInitialisms_tiles`: `a.b.` at offset 1 running up to the end of the vector -/
+example : Tiles (dottedInitialisms [⟨⟨1,2⟩,.word⟩, ⟨⟨2,3⟩,.punct .Period⟩, ⟨⟨3,4⟩,.word⟩, ⟨⟨4,5⟩,.punct .Period⟩]) 1 5 :=
+  dottedInitialisms_tiles _ 1 5 (by decide)
+example : dottedInitialisms [⟨⟨1,2⟩,.word⟩, ⟨⟨2,3⟩,.punct .Period⟩, ⟨⟨3,4⟩,.word⟩, ⟨⟨4,5⟩,.punct .Period⟩] =
+    [⟨⟨1,5⟩,.word⟩] := by decide
 
 /-- `condense_number_suffixes` incl. `condense_indices`: never panics on tokens that tile a part
 of the text, and preserves tiling -/
 theorem numberSuffixes_tiles (src : List Char) (toks : List Tok) (a b : Nat) (h : Tiles toks a b)
     (hb : b ≤ src.length) : ∃ out, numberSuffixes src toks = .ok out ∧ Tiles out a b :=
   numberSuffixes_tiles' src toks a b h hb
+
+/-- non-vacuity of `numberSuffixes_tiles`: both hypotheses on `x2nd!`, tokens `2` `nd` tiling `[1, 4)` -/
+example : ∃ out, numberSuffixes ['x', '2', 'n', 'd', '!'] [⟨⟨1,2⟩,.number 10 none⟩, ⟨⟨2,4⟩,.word⟩] = .ok out ∧
+    Tiles out 1 4 := numberSuffixes_tiles _ _ 1 4 (by decide) (by decide)
+example : (numberSuffixes ['x', '2', 'n', 'd', '!'] [⟨⟨1,2⟩,.number 10 none⟩, ⟨⟨2,4⟩,.word⟩]).toOption =
+    some [⟨⟨1,4⟩,.number 10 (some .nd)⟩] := by decide
+
+/-- the hypothesis `b ≤ src.length` is needed: a token beyond the text makes `get_span_content` panic -/
+example : (numberSuffixes ['1'] [⟨⟨0,1⟩,.number 10 none⟩, ⟨⟨1,3⟩,.word⟩]).toOption = none := by decide
 
 /-- `condense_pattern`, generically: for a pattern that is total and bounded on the token vectors
 in `P` and whose match ends are monotone (`PatOK`), `find_all_matches`' adjacent-pair filter leaves
@@ -46,15 +80,37 @@ theorem condensePattern_tiles (m : Matcher) (edit : Kind → Kind) (src : List C
     ∃ out, condensePattern m edit src toks = .ok out ∧ Tiles out a b :=
   condensePattern_tiles_of m edit src P hp toks a b hP h
 
+/-- non-vacuity of `condensePattern_tiles`: `PatOK`, `P toks` and `Tiles` together (`etc.` under the Latin
+pattern, `P` = every token non-empty and inside the text) -/
+example : ∃ out, condensePattern latinPat id ['e', 't', 'c', '.'] [⟨⟨0,3⟩,.word⟩, ⟨⟨3,4⟩,.punct .Period⟩] = .ok out ∧
+    Tiles out 0 4 :=
+  condensePattern_tiles latinPat id _ _ (latin_patOK _) _ 0 4
+    (by intro t ht; simp at ht; rcases ht with rfl | rfl <;> decide) (by decide)
+
 /-- `condense_contractions` (`word ' word`), unconditionally on tiling input -/
 theorem condenseContractions_tiles (src : List Char) (toks : List Tok) (a b : Nat) (h : Tiles toks a b) :
     ∃ out, condenseContractions src toks = .ok out ∧ Tiles out a b :=
   condenseContractions_tiles' src toks a b h
 
+/-- non-vacuity of `condenseContractions_tiles`: `it's` -/
+example : ∃ out, condenseContractions ['i', 't', '\'', 's']
+      [⟨⟨0,2⟩,.word⟩, ⟨⟨2,3⟩,.punct .Apostrophe⟩, ⟨⟨3,4⟩,.word⟩] = .ok out ∧ Tiles out 0 4 :=
+  condenseContractions_tiles _ _ 0 4 (by decide)
+example : (condenseContractions ['i', 't', '\'', 's']
+      [⟨⟨0,2⟩,.word⟩, ⟨⟨2,3⟩,.punct .Apostrophe⟩, ⟨⟨3,4⟩,.word⟩]).toOption = some [⟨⟨0,4⟩,.word⟩] := by decide
+
 /-- `condense_ellipsis` (two or more periods, maximal munch) -/
 theorem condenseEllipsis_tiles (src : List Char) (toks : List Tok) (a b : Nat) (h : Tiles toks a b) :
     ∃ out, condenseEllipsis src toks = .ok out ∧ Tiles out a b :=
   condenseEllipsis_tiles' src toks a b h
+
+/-- non-vacuity of `condenseEllipsis_tiles`: `a...` -/
+example : ∃ out, condenseEllipsis ['a', '.', '.', '.']
+      [⟨⟨0,1⟩,.word⟩, ⟨⟨1,2⟩,.punct .Period⟩, ⟨⟨2,3⟩,.punct .Period⟩, ⟨⟨3,4⟩,.punct .Period⟩] = .ok out ∧
+    Tiles out 0 4 := condenseEllipsis_tiles _ _ 0 4 (by decide)
+example : (condenseEllipsis ['a', '.', '.', '.']
+      [⟨⟨0,1⟩,.word⟩, ⟨⟨1,2⟩,.punct .Period⟩, ⟨⟨2,3⟩,.punct .Period⟩, ⟨⟨3,4⟩,.punct .Period⟩]).toOption =
+    some [⟨⟨0,1⟩,.word⟩, ⟨⟨1,4⟩,.punct .Ellipsis⟩] := by decide
 
 /-- `condense_latin` (`etc.`, `vs.`, `et al.`): `get_content` never panics since the tokens lie
 inside the text -/
@@ -62,9 +118,19 @@ theorem condenseLatin_tiles (src : List Char) (toks : List Tok) (a b : Nat) (h :
     (hb : b ≤ src.length) : ∃ out, condenseLatin src toks = .ok out ∧ Tiles out a b :=
   condenseLatin_tiles' src toks a b h hb
 
+/-- non-vacuity of `condenseLatin_tiles`: `Vs.␣`, both hypotheses -/
+example : ∃ out, condenseLatin ['V', 's', '.', ' '] [⟨⟨0,2⟩,.word⟩, ⟨⟨2,3⟩,.punct .Period⟩, ⟨⟨3,4⟩,.space 1⟩] = .ok out ∧
+    Tiles out 0 4 := condenseLatin_tiles _ _ 0 4 (by decide) (by decide)
+example : (condenseLatin ['V', 's', '.', ' '] [⟨⟨0,2⟩,.word⟩, ⟨⟨2,3⟩,.punct .Period⟩, ⟨⟨3,4⟩,.space 1⟩]).toOption =
+    some [⟨⟨0,3⟩,.word⟩, ⟨⟨3,4⟩,.space 1⟩] := by decide
+
 /-- `match_quotes` only writes `twin_loc` -/
 theorem matchQuotes_tiles (toks : List Tok) (a b : Nat) (h : Tiles toks a b) :
     Tiles (matchQuotes toks) a b := matchQuotes_tiles' toks a b h
+
+/-- non-vacuity of `matchQuotes_tiles` -/
+example : Tiles (matchQuotes [⟨⟨0,1⟩,.quote none⟩, ⟨⟨1,2⟩,.word⟩, ⟨⟨2,3⟩,.quote none⟩]) 0 3 :=
+  matchQuotes_tiles _ 0 3 (by decide)
 
 /-- `Document::new(text, &PlainEnglish, _)` never panics or hangs and its final tokens tile the
 text, for every text, every Unicode class table and every in-bounds behaviour of the url / e-mail /
@@ -74,6 +140,49 @@ theorem document_tiles (cls : Cls) (ext : Ext) (src : List Char) (hext : ExtOK e
   obtain ⟨t0, e0, h0, _⟩ := parsePlain_tiles cls ext src hext
   obtain ⟨out, e, h⟩ := condenseAll_tiles src t0 src.length h0 (Nat.le_refl _)
   exact ⟨out, by simp only [document, e0, e], h⟩
+
+/-- non-vacuity of `document_tiles` with a table that is not empty (`a a.b␣␣"`, the hostname `a.b` reported at
+position 2): the theorem applied, and the tokens it speaks about -/
+example : ∃ toks, document asciiCls (fun pos => if pos = 2 then some (.hostname, 3) else none)
+      ['a', ' ', 'a', '.', 'b', ' ', ' ', '"'] = .ok toks ∧ Tiles toks 0 8 :=
+  document_tiles asciiCls _ ['a', ' ', 'a', '.', 'b', ' ', ' ', '"'] (by
+    intro pos k n h
+    dsimp only at h
+    split at h
+    · cases h; simp only [List.length_cons, List.length_nil]; omega
+    · cases h)
+example : (document asciiCls (fun pos => if pos = 2 then some (.hostname, 3) else none)
+      ['a', ' ', 'a', '.', 'b', ' ', ' ', '"']).toOption =
+    some [⟨⟨0,1⟩,.word⟩, ⟨⟨1,2⟩,.space 1⟩, ⟨⟨2,5⟩,.hostname⟩, ⟨⟨5,7⟩,.space 2⟩, ⟨⟨7,8⟩,.quote none⟩] := by decide
+
+/-- the property's first sentence for plain English, on the final `Document` tokens: every token covers at
+least one character, lies inside the text, and the tokens are in increasing, non-overlapping order (there
+are no zero-width tokens at all) -/
+theorem document_inbounds_sorted (cls : Cls) (ext : Ext) (src : List Char) (hext : ExtOK ext src.length) :
+    ∃ toks, document cls ext src = .ok toks ∧
+      (∀ t ∈ toks, t.span.start < t.span.stop ∧ t.span.stop ≤ src.length) ∧
+      toks.Pairwise (fun x y => x.span.stop ≤ y.span.start) := by
+  obtain ⟨toks, e, h⟩ := document_tiles cls ext src hext
+  obtain ⟨_, h2, h3⟩ := tiles_inbounds_sorted toks 0 src.length h
+  exact ⟨toks, e, fun t ht => ⟨(h2 t ht).2.1, (h2 t ht).2.2⟩, h3⟩
+
+/-- `Document::new(text, &PlainEnglish, _)` with the url / e-mail / hostname lexers computed by the model
+(`extOfSrc`, `Model/LexExt.lean`): no hypothesis left but the text and the Unicode class table -/
+theorem documentFull_tiles (cls : Cls) (src : List Char) :
+    ∃ toks, document cls (extOfSrc src) src = .ok toks ∧ Tiles toks 0 src.length :=
+  document_tiles cls (extOfSrc src) src (Harper.extOfSrc_ok src)
+
+theorem documentFull_inbounds_sorted (cls : Cls) (src : List Char) :
+    ∃ toks, document cls (extOfSrc src) src = .ok toks ∧
+      (∀ t ∈ toks, t.span.start < t.span.stop ∧ t.span.stop ≤ src.length) ∧
+      toks.Pairwise (fun x y => x.span.stop ≤ y.span.start) :=
+  document_inbounds_sorted cls (extOfSrc src) src (Harper.extOfSrc_ok src)
+
+/-- `x@y.z, it's "1st"` with the computed table: e-mail address, contraction, ordinal suffix, quote twins -/
+example : (document asciiCls (extOfSrc ['x', '@', 'y', '.', 'z', ',', ' ', 'i', 't', '\'', 's', ' ', '"', '1', 's', 't', '"'])
+      ['x', '@', 'y', '.', 'z', ',', ' ', 'i', 't', '\'', 's', ' ', '"', '1', 's', 't', '"']).toOption =
+    some [⟨⟨0,5⟩,.email⟩, ⟨⟨5,6⟩,.punct .Comma⟩, ⟨⟨6,7⟩,.space 1⟩, ⟨⟨7,11⟩,.word⟩, ⟨⟨11,12⟩,.space 1⟩,
+      ⟨⟨12,13⟩,.quote (some 7)⟩, ⟨⟨13,16⟩,.number 10 (some .st)⟩, ⟨⟨16,17⟩,.quote (some 5)⟩] := by decide
 
 /-! ### witnesses (kernel-evaluated): the quirks the model keeps -/
 
@@ -125,6 +234,22 @@ theorem space_shape (cls : Cls) (ext : Ext) (src : List Char) (hext : ExtOK ext 
         2 * ((src.drop t.span.start).take (t.span.stop - t.span.start)).count '\t' :=
   (document_shape cls ext src hext out h t ht).1 n hk
 
+/-- `toOption = some v` (what `decide` can check) gives `= .ok v` (what the theorems assume) -/
+theorem ok_of_toOption_eq_some {α} (r : Except Panic α) (v : α) (h : r.toOption = some v) : r = .ok v := by
+  cases r with
+  | error e => cases h
+  | ok a => simp only [Except.toOption, Option.some.injEq] at h; rw [h]
+
+/-- the document of `2nd␣⇥"x"`, used as the witness below -/
+theorem shapeWitness_doc : document asciiCls (fun _ => none) ['2', 'n', 'd', ' ', '\t', '"', 'x', '"'] =
+    .ok [⟨⟨0,3⟩,.number 10 (some .nd)⟩, ⟨⟨3,5⟩,.space 3⟩, ⟨⟨5,6⟩,.quote (some 4)⟩, ⟨⟨6,7⟩,.word⟩, ⟨⟨7,8⟩,.quote (some 2)⟩] :=
+  ok_of_toOption_eq_some _ _ (by decide)
+
+/-- non-vacuity of `space_shape`: all hypotheses on the `Space(3)` token of `2nd␣⇥"x"`, the theorem applied -/
+example : (∀ c ∈ [' ', '\t'], c = ' ' ∨ c = '\t') ∧ 3 = [' ', '\t'].count ' ' + 2 * [' ', '\t'].count '\t' :=
+  space_shape asciiCls (fun _ => none) _ (by intro _ _ _ h; cases h) _ shapeWitness_doc
+    ⟨⟨3,5⟩,.space 3⟩ (by decide) 3 rfl
+
 /-- A `Number` token with suffix `s` ends in two characters that `NumberSuffix::from_chars` reads as
 `s` (a row of the table regenerated from `number.rs`). -/
 theorem number_suffix_shape (cls : Cls) (ext : Ext) (src : List Char) (hext : ExtOK ext src.length)
@@ -134,12 +259,29 @@ theorem number_suffix_shape (cls : Cls) (ext : Ext) (src : List Char) (hext : Ex
       fromCharsRow c1 c2 = some s :=
   (document_shape cls ext src hext out h t ht).2 r s hk
 
+/-- non-vacuity of `number_suffix_shape`: the `Number` token `2nd` of the same document -/
+example : ∃ pre c1 c2, ['2', 'n', 'd'] = pre ++ [c1, c2] ∧ fromCharsRow c1 c2 = some .nd :=
+  number_suffix_shape asciiCls (fun _ => none) _ (by intro _ _ _ h; cases h) _ shapeWitness_doc
+    ⟨⟨0,3⟩,.number 10 (some .nd)⟩ (by decide) 10 .nd rfl
+
 /-- `match_quotes`: the twin of a quote token is a (different) quote token whose twin is the first;
 stated for any token vector whose quote tokens carry no twin yet … -/
 theorem matchQuotes_involutive (toks : List Tok) (hf : Fresh toks) (i j : Nat) (t : Tok)
     (h : (matchQuotes toks)[i]? = some t) (hk : t.kind = .quote (some j)) :
     ∃ u, (matchQuotes toks)[j]? = some u ∧ u.kind = .quote (some i) ∧ i ≠ j :=
   matchQuotes_twin toks hf i j t h hk
+
+/-- non-vacuity of `matchQuotes_involutive`: `Fresh`, `h` and `hk` together (`i = 0`, `j = 2`), theorem applied -/
+example : ∃ u, (matchQuotes [⟨⟨0,1⟩,.quote none⟩, ⟨⟨1,2⟩,.word⟩, ⟨⟨2,3⟩,.quote none⟩])[2]? = some u ∧
+    u.kind = .quote (some 0) ∧ 0 ≠ 2 :=
+  matchQuotes_involutive [⟨⟨0,1⟩,.quote none⟩, ⟨⟨1,2⟩,.word⟩, ⟨⟨2,3⟩,.quote none⟩]
+    (by intro t ht x hx
+        simp only [List.mem_cons, List.mem_nil_iff, or_false] at ht
+        rcases ht with rfl | rfl | rfl <;> cases hx)
+    0 2 ⟨⟨0,1⟩,.quote (some 2)⟩ (by decide) rfl
+
+/-- `Fresh` is needed: a stale twin index is left alone when the quote has no partner -/
+example : (matchQuotes [⟨⟨0,1⟩,.quote (some 7)⟩])[0]? = some ⟨⟨0,1⟩,.quote (some 7)⟩ := by decide
 
 /-- … and for the tokens of a document -/
 theorem document_twins_involutive (cls : Cls) (ext : Ext) (src : List Char) (out : List Tok)
@@ -148,15 +290,33 @@ theorem document_twins_involutive (cls : Cls) (ext : Ext) (src : List Char) (out
   obtain ⟨t8, hf, rfl⟩ := document_prequotes cls ext src out h
   exact matchQuotes_twin t8 hf i j t hi hk
 
+/-- non-vacuity of `document_twins_involutive`: the quotation marks of `2nd␣⇥"x"` (tokens 2 and 4) -/
+example : ∃ u, ([⟨⟨0,3⟩,.number 10 (some .nd)⟩, ⟨⟨3,5⟩,.space 3⟩, ⟨⟨5,6⟩,.quote (some 4)⟩, ⟨⟨6,7⟩,.word⟩,
+      ⟨⟨7,8⟩,.quote (some 2)⟩] : List Tok)[4]? = some u ∧ u.kind = .quote (some 2) ∧ 2 ≠ 4 :=
+  document_twins_involutive asciiCls (fun _ => none) _ _ shapeWitness_doc 2 4 _ rfl rfl
+
 /-- of an odd number of quotation marks the last one has no twin -/
 theorem matchQuotes_unpaired_last (toks : List Tok) (hf : Fresh toks) (q : Nat)
     (hodd : (quoteIdx 0 toks).length % 2 = 1) (hq : (quoteIdx 0 toks).getLast? = some q) :
     ∃ t, (matchQuotes toks)[q]? = some t ∧ t.kind = .quote none :=
   matchQuotes_unpaired toks hf q hodd hq
 
+/-- non-vacuity of `matchQuotes_unpaired_last`: three quotation marks, the third (index 3) stays alone -/
+example : ∃ t, (matchQuotes [⟨⟨0,1⟩,.quote none⟩, ⟨⟨1,2⟩,.quote none⟩, ⟨⟨2,3⟩,.word⟩, ⟨⟨3,4⟩,.quote none⟩])[3]? = some t ∧
+    t.kind = .quote none :=
+  matchQuotes_unpaired_last _
+    (by intro t ht x hx
+        simp only [List.mem_cons, List.mem_nil_iff, or_false] at ht
+        rcases ht with rfl | rfl | rfl | rfl <;> cases hx)
+    3 (by decide) (by decide)
+
 /-- `match_quotes` leaves every other token as it is -/
 theorem matchQuotes_only_quotes (toks : List Tok) (i : Nat) (t : Tok) (h : toks[i]? = some t)
     (hq : t.kind.isQuote = false) : (matchQuotes toks)[i]? = some t := matchQuotes_other toks i t h hq
+
+/-- non-vacuity of `matchQuotes_only_quotes` -/
+example : (matchQuotes [⟨⟨0,1⟩,.quote none⟩, ⟨⟨1,2⟩,.word⟩, ⟨⟨2,3⟩,.quote none⟩])[1]? = some ⟨⟨1,2⟩,.word⟩ :=
+  matchQuotes_only_quotes _ 1 _ (by decide) rfl
 
 /-- witnesses: `" \t  "` is one `Space(5)` token = 3 blanks + 2·1 tab; three quotation marks: the
 first two are twins, the third has none -/
@@ -168,5 +328,432 @@ example : Fresh [⟨⟨0, 1⟩, .quote none⟩, ⟨⟨1, 2⟩, .word⟩] := by
   intro t ht x hx
   simp only [List.mem_cons, List.mem_nil_iff, or_false] at ht
   rcases ht with rfl | rfl <;> cases hx
+
+/-! ## the lexical shape of `Word`, `Punctuation` and `Number` tokens
+
+What the property's second sentence says about words, punctuation marks and numbers, as far as it is true of
+the code and expressible in the model (`Tok` carries the radix and the suffix of a number, not its value: that
+the value is what the text denotes is checked by the oracle `number-value` on the real tokens only).
+* lexer level (`PlainEnglish::parse`): `parsePlain_punct_shape`, `parsePlain_word_shape`,
+  `parsePlain_number_shape`;
+* `Document` level: `punct_shape` for every mark but the ellipsis (a condensed ellipsis covers two or more
+  periods: witness below). A `Word` of a `Document` can contain apostrophes, periods (`e.g.`) and — `et al.` —
+  white space (witness above); its shape after condensing is not a theorem here. -/
+/-- a `Punctuation(p)` result of any lexer is one character long and `p` is what the regenerated table
+(`Punctuation::from_char`, currency signs included) says about that character -/
+theorem runLexer_punct (cls : Cls) (ext : Ext) (pos : Nat) (src : List Char) (l : LexerName) (p : Punct) (n : Nat)
+    (h : runLexer cls ext pos src l = some (.punct p, n)) :
+    n = 1 ∧ ∃ c r, src = c :: r ∧ punctOfChar c = some p := by
+  cases l <;> simp only [runLexer] at h
+  case lex_punctuation =>
+    unfold lexPunctuation at h
+    split at h
+    · cases h
+    · rename_i c r
+      split at h
+      · cases h
+      · split at h
+        · rename_i q hq
+          cases h
+          exact ⟨rfl, c, r, rfl, hq⟩
+        · cases h
+  all_goals
+    first
+    | (simp only [lexTabs, lexSpaces, lexNewlines, lexWord, lexCatch] at h
+       repeat' (first | (cases h; done) | split at h))
+    | (unfold lexRegexish at h; repeat' (first | (cases h; done) | split at h))
+    | (unfold lexPluralDigit at h; repeat' (first | (cases h; done) | split at h | unfold pluralTail at h))
+    | (unfold lexHexNumber at h; repeat' (first | (cases h; done) | split at h))
+    | (unfold lexLongDecade at h; repeat' (first | (cases h; done) | split at h))
+    | (unfold lexNumber at h; repeat' (first | (cases h; done) | split at h))
+    | (repeat' (first | (cases h; done) | split at h))
+
+/-- a `Word` result of any lexer (`lex_word`, or `lex_plural_digit`: `1s`, `a's`) consists of English-lingual
+characters, ASCII letters and digits, and the apostrophe -/
+theorem runLexer_word (cls : Cls) (ext : Ext) (pos : Nat) (src : List Char) (l : LexerName) (n : Nat)
+    (h : runLexer cls ext pos src l = some (.word, n)) :
+    ∀ c ∈ src.take n, cls.lingual c = true ∨ isAsciiAlnum c = true ∨ c = '\'' := by
+  cases l <;> simp only [runLexer] at h
+  case lex_word =>
+    simp only [lexWord] at h
+    split at h
+    · cases h
+    · cases h
+      intro c hc
+      have := cw_take_all _ _ c hc
+      simp only [Bool.or_eq_true] at this
+      rcases this with h1 | h1
+      · exact Or.inl h1
+      · exact Or.inr (Or.inl (by simp [isAsciiAlnum, h1]))
+  case lex_plural_digit =>
+    unfold lexPluralDigit at h
+    split at h
+    · cases h
+    · rename_i c r0
+      split at h
+      · cases h
+      · rename_i hc
+        simp only [Bool.not_eq_eq_eq_not, Bool.not_true] at hc
+        have hs : isAsciiAlnum 's' = true := by decide
+        split at h
+        all_goals
+          unfold pluralTail at h
+          split at h
+          · split at h
+            · cases h
+              intro x hx
+              simp at hx
+              rcases hx with rfl | rfl | rfl <;> simp_all
+            · split at h
+              · cases h
+                intro x hx
+                simp at hx
+                rcases hx with rfl | rfl | rfl <;> simp_all
+              · cases h
+          · cases h
+  all_goals
+    first
+    | (simp only [lexTabs, lexSpaces, lexNewlines, lexCatch] at h
+       repeat' (first | (cases h; done) | split at h))
+    | (unfold lexRegexish at h; repeat' (first | (cases h; done) | split at h))
+    | (unfold lexPunctuation at h; repeat' (first | (cases h; done) | split at h))
+    | (unfold lexHexNumber at h; repeat' (first | (cases h; done) | split at h))
+    | (unfold lexLongDecade at h; repeat' (first | (cases h; done) | split at h))
+    | (unfold lexNumber at h; repeat' (first | (cases h; done) | split at h))
+    | (repeat' (first | (cases h; done) | split at h))
+
+/-- a `Number` result of any lexer carries no suffix yet and is either a decimal literal — the text is accepted by
+the `str::parse::<f64>` grammar and does not end in a period — or `0x` followed by hex digits whose value fits `u64` -/
+theorem runLexer_number (cls : Cls) (ext : Ext) (pos : Nat) (src : List Char) (l : LexerName) (r : Nat)
+    (s : Option Suffix) (n : Nat) (h : runLexer cls ext pos src l = some (.number r s, n)) :
+    s = none ∧
+    ((r = 10 ∧ parsesF64 (src.take n) = true ∧ (src.take n).getLast? ≠ some '.') ∨
+     (r = 16 ∧ ∃ k, n = k + 2 ∧ 1 ≤ k ∧ src.take 2 = ['0', 'x'] ∧ (∀ c ∈ (src.drop 2).take k, isAsciiHex c = true) ∧
+        hexValue ((src.drop 2).take k) < 2 ^ 64)) := by
+  cases l <;> simp only [runLexer] at h
+  case lex_number =>
+    unfold lexNumber at h
+    split at h
+    · cases h
+    · split at h
+      · cases h
+      · split at h
+        · cases h
+        · rename_i e he
+          split at h
+          · rename_i m hm
+            cases h
+            obtain ⟨_, hns⟩ := numberLoop_accepts _ _ _ hm
+            simp only [Skipped, not_or, Bool.not_eq_false] at hns
+            exact ⟨rfl, Or.inl ⟨rfl, hns.2, hns.1⟩⟩
+          · cases h
+  case lex_hex_number =>
+    unfold lexHexNumber at h
+    split at h
+    · rename_i z x c rest
+      split at h
+      · rename_i hc
+        split at h
+        · cases h
+        · rename_i k hk
+          split at h
+          · rename_i hv
+            cases h
+            simp only [Bool.and_eq_true, beq_iff_eq] at hc
+            obtain ⟨⟨rfl, rfl⟩, hc3⟩ := hc
+            refine ⟨rfl, Or.inr ⟨rfl, k, rfl, ?_, rfl, ?_, ?_⟩⟩
+            · simp only [hexScan, hc3, if_true] at hk
+              cases hh : hexScan cls rest with
+              | none => simp [hh] at hk
+              | some j => simp [hh] at hk; omega
+            · exact hexScan_hex cls _ k hk
+            · exact hv
+          · cases h
+      · cases h
+    · cases h
+  all_goals
+    first
+    | (simp only [lexTabs, lexSpaces, lexNewlines, lexWord, lexCatch] at h
+       repeat' (first | (cases h; done) | split at h))
+    | (unfold lexRegexish at h; repeat' (first | (cases h; done) | split at h))
+    | (unfold lexPunctuation at h; repeat' (first | (cases h; done) | split at h))
+    | (unfold lexPluralDigit at h; repeat' (first | (cases h; done) | split at h | unfold pluralTail at h))
+    | (unfold lexLongDecade at h; repeat' (first | (cases h; done) | split at h))
+    | (repeat' (first | (cases h; done) | split at h))
+
+/-- what `lex_token` returns is what one of the lexers returned -/
+theorem lexToken_from_lexer (cls : Cls) (ext : Ext) (pos : Nat) (src : List Char) (kd : Kind) (n : Nat)
+    (h : lexToken cls ext pos src = some (kd, n)) : ∃ l, runLexer cls ext pos src l = some (kd, n) := by
+  unfold lexToken at h
+  generalize Tables.lexerOrder = ls at h
+  induction ls with
+  | nil => cases h
+  | cons l ls ih =>
+    simp only [firstFound] at h
+    cases hr : runLexer cls ext pos src l with
+    | none => rw [hr] at h; exact ih h
+    | some f =>
+      rw [hr] at h
+      simp only [Option.some.injEq] at h
+      subst h
+      exact ⟨l, hr⟩
+
+/-- every token of `PlainEnglish::parse` is `⟨[cursor, cursor + n), k⟩` for a result `(k, n)` of `lex_token` on
+the text from `cursor` on -/
+theorem parseLoop_tokens (cls : Cls) (ext : Ext) (P : List Char) : ∀ (fuel cursor : Nat) (rest : List Char) (toks : List Tok),
+    P.drop cursor = rest → parseLoop cls ext fuel cursor rest = .ok toks →
+    ∀ t ∈ toks, lexToken cls ext t.span.start (P.drop t.span.start) = some (t.kind, t.span.stop - t.span.start) ∧
+      t.span.start ≤ t.span.stop := by
+  intro fuel
+  induction fuel with
+  | zero => intro cursor rest toks _ h; cases h
+  | succ fuel ih =>
+    intro cursor rest toks hsrc h
+    cases rest with
+    | nil => simp only [parseLoop] at h; cases h; simp
+    | cons c cs =>
+      simp only [parseLoop] at h
+      cases hl : lexToken cls ext cursor (c :: cs) with
+      | none => rw [hl] at h; cases h
+      | some kn =>
+        obtain ⟨k, n⟩ := kn
+        rw [hl] at h
+        simp only at h
+        cases hp : parseLoop cls ext fuel (cursor + n) ((c :: cs).drop n) with
+        | error e => rw [hp] at h; cases h
+        | ok ts =>
+          rw [hp] at h
+          cases h
+          intro t ht
+          rcases List.mem_cons.mp ht with rfl | ht
+          · simp only [hsrc, show cursor + n - cursor = n by omega]
+            exact ⟨hl, by omega⟩
+          · exact ih (cursor + n) _ ts (by rw [← hsrc, List.drop_drop]) hp t ht
+
+theorem parsePlain_tokens (cls : Cls) (ext : Ext) (src : List Char) (toks : List Tok)
+    (h : parsePlain cls ext src = .ok toks) (t : Tok) (ht : t ∈ toks) :
+    ∃ l, runLexer cls ext t.span.start (src.drop t.span.start) l = some (t.kind, t.span.stop - t.span.start) := by
+  obtain ⟨h1, _⟩ := parseLoop_tokens cls ext src _ 0 src toks rfl h t ht
+  exact lexToken_from_lexer _ _ _ _ _ _ h1
+
+/-- a `Punctuation(p)` token of `PlainEnglish::parse` is one character, and `p` is that character's mark -/
+theorem parsePlain_punct_shape (cls : Cls) (ext : Ext) (src : List Char) (toks : List Tok)
+    (h : parsePlain cls ext src = .ok toks) (t : Tok) (ht : t ∈ toks) (q : Punct) (hk : t.kind = .punct q) :
+    t.span.stop = t.span.start + 1 ∧ ∃ c, src[t.span.start]? = some c ∧ punctOfChar c = some q := by
+  obtain ⟨h1, h2⟩ := parseLoop_tokens cls ext src _ 0 src toks rfl h t ht
+  obtain ⟨l, hl⟩ := lexToken_from_lexer _ _ _ _ _ _ h1
+  rw [hk] at hl
+  obtain ⟨hn, c, r, hc, hp⟩ := runLexer_punct _ _ _ _ _ _ _ hl
+  refine ⟨by omega, c, ?_, hp⟩
+  have := congrArg List.head? hc
+  rw [List.head?_drop] at this
+  simpa using this
+
+/-- a `Word` token of `PlainEnglish::parse` contains only English-lingual characters, ASCII letters and
+digits, and apostrophes … -/
+theorem parsePlain_word_shape (cls : Cls) (ext : Ext) (src : List Char) (toks : List Tok)
+    (h : parsePlain cls ext src = .ok toks) (t : Tok) (ht : t ∈ toks) (hk : t.kind = .word) :
+    ∀ c ∈ (src.drop t.span.start).take (t.span.stop - t.span.start),
+      cls.lingual c = true ∨ isAsciiAlnum c = true ∨ c = '\'' := by
+  obtain ⟨h1, _⟩ := parseLoop_tokens cls ext src _ 0 src toks rfl h t ht
+  obtain ⟨l, hl⟩ := lexToken_from_lexer _ _ _ _ _ _ h1
+  rw [hk] at hl
+  exact runLexer_word _ _ _ _ _ _ hl
+
+/-- … hence no white space, whatever "white space" is, as long as no such character is English-lingual -/
+theorem parsePlain_word_no_whitespace (cls : Cls) (ext : Ext) (src : List Char) (toks : List Tok)
+    (ws : Char → Bool) (hws : ∀ c, ws c = true → cls.lingual c = false ∧ isAsciiAlnum c = false ∧ c ≠ '\'')
+    (h : parsePlain cls ext src = .ok toks) (t : Tok) (ht : t ∈ toks) (hk : t.kind = .word) :
+    ∀ c ∈ (src.drop t.span.start).take (t.span.stop - t.span.start), ws c = false := by
+  intro c hc
+  cases hw : ws c with
+  | false => rfl
+  | true =>
+    obtain ⟨a1, a2, a3⟩ := hws c hw
+    rcases parsePlain_word_shape cls ext src toks h t ht hk c hc with b | b | b
+    · rw [a1] at b; cases b
+    · rw [a2] at b; cases b
+    · exact absurd b a3
+
+/-- a `Number` token of `PlainEnglish::parse`: no suffix, and its text is a decimal literal of the f64 grammar
+that does not end in a period, or a `0x` literal that fits `u64` -/
+theorem parsePlain_number_shape (cls : Cls) (ext : Ext) (src : List Char) (toks : List Tok)
+    (h : parsePlain cls ext src = .ok toks) (t : Tok) (ht : t ∈ toks) (r : Nat) (s : Option Suffix)
+    (hk : t.kind = .number r s) :
+    s = none ∧
+    ((r = 10 ∧ parsesF64 ((src.drop t.span.start).take (t.span.stop - t.span.start)) = true ∧
+        ((src.drop t.span.start).take (t.span.stop - t.span.start)).getLast? ≠ some '.') ∨
+     (r = 16 ∧ ∃ k, t.span.stop - t.span.start = k + 2 ∧ 1 ≤ k ∧
+        (src.drop t.span.start).take 2 = ['0', 'x'] ∧
+        (∀ c ∈ ((src.drop t.span.start).drop 2).take k, isAsciiHex c = true) ∧
+        hexValue (((src.drop t.span.start).drop 2).take k) < 2 ^ 64)) := by
+  obtain ⟨h1, _⟩ := parseLoop_tokens cls ext src _ 0 src toks rfl h t ht
+  obtain ⟨l, hl⟩ := lexToken_from_lexer _ _ _ _ _ _ h1
+  rw [hk] at hl
+  exact runLexer_number _ _ _ _ _ _ _ _ hl
+
+/-- the loop of `condense_pattern` when the rewritten first token always gets a kind `p` rejects -/
+theorem condLoop_keptOr_const (p : Kind → Bool) (edit : Kind → Kind) (hedit : ∀ k, p (edit k) = false)
+    (orig : List Tok) (ms : List Span) : ∀ (cur : List Tok) (rem : List Nat) (ts : List Tok) (r : List Nat),
+    (∀ t ∈ cur, t ∈ orig ∨ p t.kind = false) →
+    condLoop edit ms cur rem = .ok (ts, r) → ∀ t ∈ ts, t ∈ orig ∨ p t.kind = false := by
+  induction ms with
+  | nil =>
+    intro cur rem ts r hJ hc
+    simp only [condLoop, Except.ok.injEq, Prod.mk.injEq] at hc
+    rw [← hc.1]; exact hJ
+  | cons m ms ih =>
+    intro cur rem ts r hJ hc
+    simp only [condLoop] at hc
+    cases hs : sliceE cur m.start m.stop with
+    | error e => rw [hs] at hc; cases hc
+    | ok slice =>
+      rw [hs] at hc
+      simp only at hc
+      split at hc
+      · exact ih cur rem ts r hJ hc
+      · cases hsp : spanOf slice with
+        | none => rw [hsp] at hc; cases hc
+        | some sp =>
+          rw [hsp] at hc
+          simp only at hc
+          cases hg : cur[m.start]? with
+          | none => rw [hg] at hc; cases hc
+          | some t0 =>
+            rw [hg] at hc
+            simp only at hc
+            refine ih _ _ ts r ?_ hc
+            intro t ht
+            rcases List.mem_or_eq_of_mem_set ht with h' | rfl
+            · exact hJ t h'
+            · exact Or.inr (hedit _)
+
+theorem condensePattern_keptOr_const (p : Kind → Bool) (m : Matcher) (edit : Kind → Kind)
+    (hedit : ∀ k, p (edit k) = false) (src : List Char) (toks out : List Tok)
+    (hc : condensePattern m edit src toks = .ok out) : KeptOr p out toks := by
+  unfold condensePattern at hc
+  rw [findAllMatches_eq] at hc
+  cases hf : foundFrom m src 0 toks with
+  | error e => rw [hf] at hc; cases hc
+  | ok found =>
+    rw [hf] at hc
+    simp only [Except.map] at hc
+    cases hl : condLoop edit (filt found) toks [] with
+    | error e => rw [hl] at hc; cases hc
+    | ok r =>
+      obtain ⟨ts, rem⟩ := r
+      rw [hl] at hc
+      simp only [Except.ok.injEq] at hc
+      have := condLoop_keptOr_const p edit hedit toks (filt found) toks [] ts rem (fun t ht => Or.inl ht) hl
+      intro t ht
+      rw [← hc] at ht
+      exact this t (removeIndices_mem _ _ _ t ht)
+
+/-- Tokens of a kind that no condensing pass produces reach the `Document` untouched from the lexer -/
+theorem document_kept (p : Kind → Bool)
+    (hw : ∀ k, k.isWord = true → p k = false) (hs : ∀ n, p (.space n) = false) (hn : ∀ n, p (.newline n) = false)
+    (hb : p .paragraphBreak = false) (hnum : ∀ r s, p (.number r s) = false) (hq : ∀ tw, p (.quote tw) = false)
+    (hell : p (.punct .Ellipsis) = false)
+    (cls : Cls) (ext : Ext) (src : List Char) (hext : ExtOK ext src.length) (out : List Tok)
+    (h : document cls ext src = .ok out) :
+    ∃ t0, parsePlain cls ext src = .ok t0 ∧ ∀ t ∈ out, p t.kind = true → t ∈ t0 := by
+  obtain ⟨t0, e0, hT0, _⟩ := parseLoop_tiles cls ext src.length hext (src.length + 1) 0 src (by omega) (by omega)
+  have e0' : parsePlain cls ext src = .ok t0 := e0
+  refine ⟨t0, e0', ?_⟩
+  suffices hk : KeptOr p out t0 by
+    intro t ht hp
+    rcases hk t ht with h' | h'
+    · exact h'
+    · rw [hp] at h'; cases h'
+  rw [document_eq cls ext src t0 e0', prePasses_eq] at h
+  have hT1 := condenseSpaces_tiles' _ _ _ hT0
+  have hk1 := condenseSpaces_keptOr p hs t0
+  have hT2 := condenseNewlines_tiles' _ _ _ hT1
+  have hk2 := (condenseNewlines_keptOr p hn _).trans hk1
+  have hT3 := newlinesToBreaks_tiles' _ _ _ hT2
+  have hk3 := (newlinesToBreaks_keptOr p hb _).trans hk2
+  change Except.map matchQuotes (passes48 src (newlinesToBreaks (condenseNewlines (condenseSpaces t0)))) = _ at h
+  generalize newlinesToBreaks (condenseNewlines (condenseSpaces t0)) = t3 at h hT3 hk3
+  unfold passes48 at h
+  obtain ⟨t4, e4, hT4⟩ := condenseContractions_tiles' src t3 0 src.length hT3
+  rw [e4] at h
+  simp only at h
+  have hk4 := (condensePattern_keptOr p contractionPat id (fun _ hk => hk) src t3 t4
+      (fun k n hm hn => by obtain ⟨t, r, e, hw'⟩ := contraction_head src _ n hm hn; exact ⟨t, r, e, hw _ hw'⟩) e4).trans hk3
+  have hT5 := dottedInitialisms_tiles' _ _ _ hT4
+  have hk5 := (dottedInitialisms_keptOr p hw t4).trans hk4
+  obtain ⟨t6, e6, hT6⟩ := numberSuffixes_tiles' src _ 0 src.length hT5 (Nat.le_refl _)
+  rw [e6] at h
+  simp only at h
+  have hk6 := (NS_keptOr p hnum src _ t6 e6).trans hk5
+  obtain ⟨t7, e7, hT7⟩ := condenseEllipsis_tiles' src t6 0 src.length hT6
+  rw [e7] at h
+  simp only at h
+  have hk7 := (condensePattern_keptOr_const p ellipsisPat _ (fun _ => hell) src t6 t7 e7).trans hk6
+  obtain ⟨t8, e8, hT8⟩ := condenseLatin_tiles' src t7 0 src.length hT7 (Nat.le_refl _)
+  have hin7 : InB src t7 := hT7.inB (Nat.le_refl _)
+  have hdrop : ∀ k, InB src (t7.drop k) := fun k x hx => hin7 x (List.mem_of_mem_drop hx)
+  have e8' : condenseLatin src t7 = .ok t8 := e8
+  rw [e8'] at h
+  simp only [Except.map, Except.ok.injEq] at h
+  have hk8 := (condensePattern_keptOr p latinPat id (fun _ hk => hk) src t7 t8
+      (fun k n hm hn => by obtain ⟨t, r, e, hw'⟩ := latin_head src _ (hdrop k) n hm hn; exact ⟨t, r, e, hw _ hw'⟩) e8).trans hk7
+  rw [← h]
+  exact (matchQuotes_keptOr p hq t8).trans hk8
+
+/-- A `Punctuation(p)` token of a `Document`, `p` not the ellipsis, is ONE character and `p` is the mark the
+regenerated table (`Punctuation::from_char`, currency signs included) gives for that character: such tokens
+come from `lex_punctuation` and no condensing pass rewrites them (the pattern passes rewrite a `Word`, or a
+`Period` into an `Ellipsis`; the initialism pass removes periods but never rewrites one). -/
+theorem punct_shape (cls : Cls) (ext : Ext) (src : List Char) (hext : ExtOK ext src.length) (out : List Tok)
+    (h : document cls ext src = .ok out) (t : Tok) (ht : t ∈ out) (q : Punct) (hk : t.kind = .punct q)
+    (hq : q ≠ .Ellipsis) :
+    t.span.stop = t.span.start + 1 ∧ ∃ c, src[t.span.start]? = some c ∧ punctOfChar c = some q := by
+  obtain ⟨t0, e0, hkept⟩ := document_kept
+    (fun k => match k with | .punct p => p != .Ellipsis | _ => false)
+    (by intro k hw; cases k <;> simp_all [Kind.isWord]) (fun _ => rfl) (fun _ => rfl) rfl (fun _ _ => rfl)
+    (fun _ => rfl) (by decide) cls ext src hext out h
+  have hmem : t ∈ t0 := hkept t ht (by rw [hk]; simpa using hq)
+  exact parsePlain_punct_shape cls ext src t0 e0 t hmem q hk
+
+/-- non-vacuity of `punct_shape`: the final `!` of `ab,cd.!` (all hypotheses together, theorem applied) -/
+example : (7 : Nat) = 6 + 1 ∧ ∃ c, ['a', 'b', ',', 'c', 'd', '.', '!'][6]? = some c ∧ punctOfChar c = some .Bang :=
+  punct_shape asciiCls (fun _ => none) ['a', 'b', ',', 'c', 'd', '.', '!'] (by intro _ _ _ h; cases h)
+    [⟨⟨0,2⟩,.word⟩, ⟨⟨2,3⟩,.punct .Comma⟩, ⟨⟨3,5⟩,.word⟩, ⟨⟨5,6⟩,.punct .Period⟩, ⟨⟨6,7⟩,.punct .Bang⟩]
+    (ok_of_toOption_eq_some _ _ (by decide)) ⟨⟨6,7⟩,.punct .Bang⟩ (by decide) .Bang rfl (by decide)
+
+/-- the ellipsis is excluded for a reason: a condensed `Ellipsis` token covers several characters -/
+example : (document asciiCls (fun _ => none) ['a', 'b', '.', '.']).toOption =
+    some [⟨⟨0,2⟩,.word⟩, ⟨⟨2,4⟩,.punct .Ellipsis⟩] := by decide
+
+/-- (after a ONE-letter word the first period belongs to a dotted initialism instead: `a..` is `a.` `.`) -/
+example : (document asciiCls (fun _ => none) ['a', '.', '.']).toOption =
+    some [⟨⟨0,2⟩,.word⟩, ⟨⟨2,3⟩,.punct .Period⟩] := by decide
+
+/-- non-vacuity of the three lexer-level theorems: `a's 0x1F, 1e3.` (`a's` is `lex_plural_digit`'s `Word`) -/
+theorem lexWitness_parse : parsePlain asciiCls (fun _ => none)
+      ['a', '\'', 's', ' ', '0', 'x', '1', 'F', ',', ' ', '1', 'e', '3', '.'] =
+    .ok [⟨⟨0,3⟩,.word⟩, ⟨⟨3,4⟩,.space 1⟩, ⟨⟨4,8⟩,.number 16 none⟩, ⟨⟨8,9⟩,.punct .Comma⟩, ⟨⟨9,10⟩,.space 1⟩,
+      ⟨⟨10,13⟩,.number 10 none⟩, ⟨⟨13,14⟩,.punct .Period⟩] :=
+  ok_of_toOption_eq_some _ _ (by decide)
+
+example : (9 : Nat) = 8 + 1 ∧ ∃ c, ['a', '\'', 's', ' ', '0', 'x', '1', 'F', ',', ' ', '1', 'e', '3', '.'][8]? = some c ∧
+    punctOfChar c = some .Comma :=
+  parsePlain_punct_shape _ _ _ _ lexWitness_parse ⟨⟨8,9⟩,.punct .Comma⟩ (by decide) .Comma rfl
+
+example : ∀ c ∈ ['a', '\'', 's'], asciiCls.lingual c = true ∨ isAsciiAlnum c = true ∨ c = '\'' :=
+  parsePlain_word_shape _ _ _ _ lexWitness_parse ⟨⟨0,3⟩,.word⟩ (by decide) rfl
+
+/-- the hypothesis of `parsePlain_word_no_whitespace` holds for the ASCII class table and `Char.isWhitespace` -/
+example : ∀ c ∈ ['a', '\'', 's'], Char.isWhitespace c = false :=
+  parsePlain_word_no_whitespace asciiCls _ _ _ Char.isWhitespace
+    (by intro c hc
+        simp only [Char.isWhitespace, Bool.or_eq_true, decide_eq_true_eq] at hc
+        rcases hc with ((rfl | rfl) | rfl) | rfl <;> decide)
+    lexWitness_parse ⟨⟨0,3⟩,.word⟩ (by decide) rfl
+
+example : parsesF64 ['1', 'e', '3'] = true :=
+  ((parsePlain_number_shape _ _ _ _ lexWitness_parse ⟨⟨10,13⟩,.number 10 none⟩ (by decide) 10 none rfl).2.resolve_right
+    (by rintro ⟨h, _⟩; cases h)).2.1
 
 end Harper.C02
